@@ -201,6 +201,8 @@ CONFIGS = {
     'gcc14-ubsan': ('g++', ['-std=c++14', '-O0', '-fsanitize=undefined', '-fsanitize-undefined-trap-on-error']),
     'clang14-ubsan': ('clang++-14', ['-std=c++14', '-O0', '-fsanitize=undefined', '-fsanitize-trap=undefined']),
     'gcc14-O2-ndebug': ('g++', ['-std=c++14', '-O2', '-DNDEBUG']),
+    'clang17-O2-ndebug': ('clang++-14', ['-std=c++17', '-O2', '-DNDEBUG']),
+    'gcc17-O0-assert': ('g++', ['-std=c++17', '-O0']),
     'gcc20-O2-ndebug-mdspandebug': ('g++', ['-std=c++20', '-O2', '-DNDEBUG', '-D_MDSPAN_DEBUG']),
     'gcc23-paren-bracket': ('g++', ['-std=c++23', '-O0', '-DMDSPAN_USE_PAREN_OPERATOR=1', '-DMDSPAN_USE_BRACKET_OPERATOR=1']),
 }
